@@ -348,7 +348,7 @@ impl Prop for C02 {
             });
         let uid = (2u16..200, any::<bool>()).prop_map(|(n, compressed)| Case::UniqueId { n, compressed });
         let s = prop_oneof![30 => purity, 1 => uid].boxed();
-        Some((s, tier.pick(4_000, 120_000)))
+        Some((s, tier.pick(4_000, 40_000)))
     }
     fn check(&self, case: &Case, cx: &mut Ctx) -> Verdict {
         match case {
